@@ -1,12 +1,13 @@
 """C16 - Curve points, lengths and closest-parameter queries are mutually consistent.
 
-Tie (N): every case runs the real curve classes of /repo and emits one Coq goal in which the model of
-coq/Model/C16_Curves.v is evaluated on the same (exact dyadic) inputs with the `interval` tactic and compared
-with the value the implementation returned; decisions of the model (interval index of the interpolation, knots
-between two parameters, argmin index) are handed to Coq as the inequalities of the branch taken
-(Proofs/C16_Curves.v proves that those inequalities determine the value of the model).  Black boxes
-(scipy's spline, scipy's minimiser) enter through the values they returned, their assumed behaviour is
-monitored.  The direct oracle states the property on the observable output only.
+Tie (N): every case runs the real curve classes of /repo; the model is evaluated inside Coq on the same exact
+binary64 inputs.  Everything piecewise linear (linspace, linear interpolation, line curve, slices of a discrete
+curve, knots between two parameters, argmin) is rational arithmetic: coq/Model/C16_CurvesQ.v evaluates it with
+vm_compute over Q, square roots (lengths, chord-length parameters) are enclosed with the integer square root
+(Proofs/C16_QSound.v ties these evaluators to the real-valued model coq/Model/C16_Curves.v).  Only the circle and
+helix points need the `interval` tactic (a few goals per curve).  Black boxes (scipy's spline, scipy's minimiser)
+enter through the values they returned, their assumed behaviour is monitored.  The direct oracle states the
+property on the observable output only.
 """
 import json
 import math
@@ -19,7 +20,6 @@ import core
 from core import CorrResult, Prop
 
 R = core.float_to_R
-EPS_PARAM = 1e-12  # slack of a branch condition on a parameter the model recomputes in exact arithmetic
 
 
 def V(p):
@@ -220,8 +220,32 @@ def make_edge(curve, v1, v2, n_points, representation):
 # model expressions
 
 
+def Q(x):
+    """exact binary64 literal: a Coq primitive float in hexadecimal notation, converted to Q by Model.C16_CurvesQ.fq"""
+    x = float(x)
+    if x != x or x in (float("inf"), float("-inf")):
+        raise RuntimeError("non-finite number in a case")
+    h = x.hex()
+    return "(fq (%s))" % h if h.startswith("-") else "(fq %s)" % h
+
+
+def QV(p):
+    return "(%s, %s, %s)" % (Q(p[0]), Q(p[1]), Q(p[2]))
+
+
+def QVL(ps):
+    return "[" + "; ".join(QV(p) for p in ps) + "]"
+
+
+def QL(ts):
+    return "[" + "; ".join(Q(t) for t in ts) + "]"
+
+
+TRANSCENDENTAL = ("circle", "helix")
+
+
 class CurveCtx:
-    """Coq definitions of one curve (prefix c<k>_) and expression builders."""
+    """Coq definitions of one curve (prefix c<k>_) for the rational and for the real-valued case files."""
 
     def __init__(self, k, spec, curve):
         self.k = k
@@ -230,63 +254,62 @@ class CurveCtx:
         self.kind = spec["kind"]
         self.size = max(size_of(spec), 1e-30)
         self.tol = 1e-9 * self.size
-        self.defs = []
+        self.qdefs = []
+        self.rdefs = []
+        self.FQ = None  # rational evaluator of the curve function
+        self.F = None  # real-valued model of the curve function
         p = "c%d_" % k
         self.p = p
         if self.kind in ("discrete", "linear", "spline"):
             self.pts = [fl(x) for x in spec["points"]]
-            self.defs.append("Definition %spts : list vec := %s." % (p, VL(self.pts)))
+            self.qdefs.append("Definition %spts : list qvec := %s." % (p, QVL(self.pts)))
         if self.kind in ("linear", "spline"):
             self.ts = fl(curve.function.params)
-            self.defs.append("Definition %sts : list R := %s." % (p, RL(self.ts)))
+            if len(self.ts) != len(self.pts):
+                raise RuntimeError("interpolator has %d parameters for %d points" % (len(self.ts), len(self.pts)))
+            self.qdefs.append("Definition %sts : list Q := %s." % (p, QL(self.ts)))
+        if self.kind == "linear":
+            self.FQ = "(qlin_point %sts %spts)" % (p, p)
         if self.kind == "spline":
             self.fk = [fl(curve.function(t)) for t in self.ts]  # black box values at the knots
-            self.defs.append("Definition %sfk : list vec := %s." % (p, VL(self.fk)))
+            self.qdefs.append("Definition %sfk : list qvec := %s." % (p, QVL(self.fk)))
         if self.kind == "line":
-            self.defs.append("Definition %sp1 : vec := %s.\nDefinition %sp2 : vec := %s." % (p, V(spec["p1"]), p, V(spec["p2"])))
-            self.F = "(line_point %sp1 %sp2)" % (p, p)
+            self.qdefs.append("Definition %sp1 : qvec := %s.\nDefinition %sp2 : qvec := %s." % (p, QV(spec["p1"]), p, QV(spec["p2"])))
+            self.FQ = "(qline_point %sp1 %sp2)" % (p, p)
         if self.kind == "circle":
             self.kvec = fl(curve.normal)
-            self.defs.append("Definition %so : vec := %s.\nDefinition %srim : vec := %s.\nDefinition %snrm : vec := %s.\nDefinition %sk : vec := %s."
-                             % (p, V(spec["origin"]), p, V(spec["rim"]), p, V(spec["normal"]), p, V(self.kvec)))
+            self.rdefs.append("Definition %so : vec := %s.\nDefinition %srim : vec := %s.\nDefinition %snrm : vec := %s.\nDefinition %sk : vec := %s."
+                              % (p, V(spec["origin"]), p, V(spec["rim"]), p, V(spec["normal"]), p, V(self.kvec)))
             self.F = "(circle_point_k %so %srim %sk)" % (p, p, p)
         if self.kind == "helix":
             o = spec["origin"]
             self.F = "(fun t : R => (%s + %s * cos t, %s + %s * sin t, %s + %s * t))" % (
                 R(o[0]), R(spec["r"]), R(o[1]), R(spec["r"]), R(o[2]), R(spec["h"]))
         self.lo, self.hi = float(curve.bounds[0]), float(curve.bounds[1])
-
-    def seg_index(self, t):
-        ts = self.ts
-        i = int(np.searchsorted(ts, t, side="right")) - 1
-        return min(max(i, 0), len(ts) - 2)
-
-    def point(self, texpr, tval, exact=True):
-        """(model expression of the curve point at parameter texpr, [branch conditions]) or None (black box)"""
-        if self.kind in ("line", "circle", "helix"):
-            return "(%s %s)" % (self.F, texpr), []
-        if self.kind == "linear":
-            i = self.seg_index(tval)
-            eps = "0" if exact else R(EPS_PARAM)
-            conds = ["nth %d %sts 0 - %s <= %s" % (i, self.p, eps, texpr), "%s <= nth %d %sts 0 + %s" % (texpr, i + 1, self.p, eps)]
-            return "(lin_point_at %d %sts %spts %s)" % (i, self.p, self.p, texpr), conds
-        return None
+        self.n_coarse = None
+        self.n_len = None
 
 
-def goal(gid, conj):
-    body = " /\\\n  ".join("(%s)" % c for c in conj)
-    return ("Goal %s.\nProof. ev. first [ solve [repeat split; interval]; idtac \"OK %d\" "
-            "| solve [repeat split; interval with (i_prec 100)]; idtac \"OK %d\" | idtac \"MISMATCH %d\" ]. Abort.\n"
-            % (body, gid, gid, gid))
+QPREAMBLE = """From Coq Require Import QArith ZArith List Bool Arith Floats.
+From CB Require Import Model.C16_Curves Model.C16_CurvesQ.
+Import ListNotations.
+Open Scope Q_scope.
+"""
 
-
-PREAMBLE = """From Coq Require Import Reals List ZArith.
+RPREAMBLE = """From Coq Require Import Reals List ZArith.
 From Interval Require Import Tactic.
 From CB Require Import Base.Vec3 Model.C16_Curves.
 Import ListNotations.
 Open Scope R_scope.
 Ltac ev := cbv - [Rplus Rminus Rmult Rdiv Ropp Rinv sqrt Rabs cos sin IZR powerRZ Rle Rlt PI].
 """
+
+
+def rgoal(gid, conj):
+    body = " /\\\n  ".join("(%s)" % c for c in conj)
+    return ("Goal %s.\nProof. ev. first [ solve [repeat split; interval with (i_prec 60)]; idtac \"OK %d\" "
+            "| solve [repeat split; interval with (i_prec 120)]; idtac \"OK %d\" | idtac \"MISMATCH %d\" ]. Abort.\n"
+            % (body, gid, gid, gid))
 
 
 # ------------------------------------------------------------------------------------------------
@@ -485,7 +508,7 @@ def gen_cases(rng, cc):
         cases.append(dict(op="pointat", t=rand_param(rng, cc)))
     for _ in range(2):
         a, b = rand_param(rng, cc), rand_param(rng, cc)
-        cases.append(dict(op="discretize", a=a, b=b, count=rng.randint(2, 9)))
+        cases.append(dict(op="discretize", a=a, b=b, count=rng.randint(2, 5) if kind in ("circle", "helix") else rng.randint(2, 9)))
     for j in range(2):
         a, b = rand_param(rng, cc), rand_param(rng, cc)
         if kind == "discrete":
@@ -509,7 +532,7 @@ def gen_cases(rng, cc):
             else:
                 m = rng.uniform(min(a, b), max(a, b))
         cases.append(dict(op="length", a=a, m=m, b=b, full=(j == 0)))
-    for near in (True, True, False):
+    for near in ((True, False) if kind in ("circle", "helix") else (True, True, False)):
         if kind == "discrete":
             i = rng.randint(0, int(cc.hi))
             base = np.array(cc.pts[i])
@@ -538,7 +561,7 @@ def gen_cases(rng, cc):
         if abs(t1 - t2) < 0.15 * (hi - lo):
             t2 = t1 + 0.3 * (hi - lo) if t1 + 0.3 * (hi - lo) < hi - margin else t1 - 0.3 * (hi - lo)
         v1, v2 = curve.get_point(t1), curve.get_point(t2)
-    cases.append(dict(op="edge", v1=fl(v1), v2=fl(v2), n_points=rng.randint(1, 6),
+    cases.append(dict(op="edge", v1=fl(v1), v2=fl(v2), n_points=rng.randint(1, 4) if kind in ("circle", "helix") else rng.randint(1, 6),
                       representation=rng.choice(["spline", "polyLine"]), extent=ext))
     for c in cases:
         c["spec"] = spec
@@ -546,163 +569,170 @@ def gen_cases(rng, cc):
 
 
 # ------------------------------------------------------------------------------------------------
-# goal generation: run the implementation, write the model side
+# correspondence obligations: run the implementation, write the model side
 
 
 class Boundary(Exception):
     pass
 
 
-def knots_trace(ts, lo, hi):
-    i = sum(1 for t in ts if t <= lo)
-    c = sum(1 for t in ts if lo < t < hi)
-    # the list is increasing: the three groups are contiguous
-    return i, c
+def ptol(*xs):
+    return 1e-12 * max([1.0] + [abs(float(x)) for x in xs])
 
 
-def length_conj(cc, a, b, L):
-    """conjuncts stating that the model's length between a and b is L"""
+def length_checks(cc, a, b, L, rng, with_tie=True):
+    """(rational checks, real-valued conjuncts) stating that the model's length between a and b is L"""
     kind, p = cc.kind, cc.p
-    tol = R(cc.tol)
+    tol = Q(cc.tol)
+    curve = cc.curve
     if kind == "discrete":
-        return ["Rabs (dc_length %spts %d %d - %s) <= %s" % (p, a, b, R(L), tol)]
-    if kind in ("linear", "spline"):
+        return ["qlen_ok %s (dc_discretize %spts %d %d) %s" % (tol, p, a, b, Q(L))], []
+    if kind == "linear":
+        return ["qlen_ok %s (qil_points %s %sts %s %s) %s" % (tol, cc.FQ, p, Q(a), Q(b), Q(L))], []
+    if kind == "spline":
         lo, hi = min(a, b), max(a, b)
-        i, c = knots_trace(cc.ts, lo, hi)
-        conj = ["knots_split %sts %s %s %d %d" % (p, R(lo), R(hi), i, c)]
-        if kind == "linear":
-            xlo, c1 = cc.point(R(lo), lo)
-            xhi, c2 = cc.point(R(hi), hi)
-            conj += c1 + c2
-            fk = "%spts" % p
-            conj.append("Rabs (Rabs (arclen %sts %spts %s - arclen %sts %spts %s) - %s) <= %s" % (p, p, R(b), p, p, R(a), R(L), tol))
-        else:
-            xlo, xhi = V(cc.curve.function(lo)), V(cc.curve.function(hi))
-            fk = "%sfk" % p
-        conj.append("Rabs (il_length_at %s %s %s %d %d - %s) <= %s" % (xlo, xhi, fk, i, c, R(L), tol))
-        return conj
+        return ["qlen_ok %s (qil_points_bb %s %s %sts %sfk %s %s) %s"
+                % (tol, QV(curve.function(lo)), QV(curve.function(hi)), p, p, Q(lo), Q(hi), Q(L))], []
+    # AnalyticCurve.get_length = polyline through discretize(a, b, n_len): the implementation's own discretisation is
+    # measured in Q, the discretisation is tied to the curve function separately
     n = cc.n_len
-    if kind == "line":
-        # fc_length_n n (line_point p1 p2) a b = |b - a| * dist p1 p2      (Proofs: fc_length_line)
-        return ["Rabs (Rabs (%s - %s) * dist %sp1 %sp2 - %s) <= %s" % (R(b), R(a), p, p, R(L), tol)]
-    if kind == "circle":
-        # (n-1) chords of 2 r |sin(step/2)|                               (Proofs: fc_length_circle)
-        return ["Rabs (%d * (2 * circle_radius %so %srim %sk * Rabs (sin ((%s - %s) / %d / 2))) - %s) <= %s"
-                % (n - 1, p, p, p, R(b), R(a), n - 1, R(L), tol)]
-    # helix: chords sqrt((2 r sin(step/2))^2 + (h step)^2)
-    sp = cc.spec
-    return ["Rabs (%d * sqrt ((2 * %s * sin ((%s - %s) / %d / 2)) ^ 2 + (%s * ((%s - %s) / %d)) ^ 2) - %s) <= %s"
-            % (n - 1, R(sp["r"]), R(b), R(a), n - 1, R(sp["h"]), R(b), R(a), n - 1, R(L), tol)]
+    py = curve.discretize(a, b, n)
+    if len(py) != n:
+        return ["false"], []
+    qs = ["qlen_ok_cd %s %s %s" % (tol, QVL(py), Q(L))]
+    rs = []
+    if with_tie:
+        if kind == "line":
+            qs.append("qclose_list %s (map %s (qlinspace %s %s %d)) %s" % (tol, cc.FQ, Q(a), Q(b), n, QVL(py)))
+        else:
+            for j in sorted({0, rng.randint(1, n - 2), n - 1}):
+                rs.append("dist (%s (lin_at %s %s %d %d)) %s <= %s" % (cc.F, R(a), R(b), n, j, V(py[j]), R(cc.tol)))
+    return qs, rs
 
 
-def case_goal(cc, case, res):
-    """Run the implementation on the case; return the list of conjuncts of its Coq goal (or raise Boundary)."""
+def case_checks(cc, case, res, rng):
+    """Run the implementation on the case.  Returns (list of rational boolean checks, list of real-valued goals);
+    every real-valued goal is a list of conjuncts.  Raises Boundary for a degenerate case."""
     curve, kind, p = cc.curve, cc.kind, cc.p
-    tol = R(cc.tol)
+    tol, rtol = Q(cc.tol), R(cc.tol)
     op = case["op"]
+    trans = kind in TRANSCENDENTAL
+    qs, rs = [], []
     if op == "point":
-        conj = []
         if kind in ("linear", "spline"):
             if cc.spec["equalize"]:
-                conj.append("close_rlist %s (chord_params %spts) %sts" % (R(1e-9), p, p))
+                qs.append("qchord_ok %s %spts %sts" % (Q(1e-9), p, p))
             else:
-                conj.append("close_rlist %s (uniform_params %d) %sts" % (R(1e-9), len(cc.pts), p))
+                qs.append("qclose_rlist %s (qlinspace 0 1 %d) %sts" % (Q(1e-9), len(cc.pts), p))
         if kind == "spline":
             # make_interp_spline assumption: the black box interpolates its knots
-            conj.append("close_list %s %sfk %spts" % (tol, p, p))
+            qs.append("qclose_list %s %sfk %spts" % (tol, p, p))
         if kind == "linear":
-            for i, t in enumerate(cc.ts):
-                e, c = cc.point(R(t), t)
-                conj += c
-                conj.append("dist %s %s <= %s" % (e, V(curve.get_point(t)), tol))
+            qs.append("qclose_list %s (map %s %sts) %s" % (tol, cc.FQ, p, QVL([curve.get_point(t) for t in cc.ts])))
         if kind == "discrete":
-            conj.append("close_list %s (map (dc_point %spts) (seq 0 %d)) %s" % (tol, p, len(cc.pts), VL([curve.get_point(i) for i in range(len(cc.pts))])))
-        if kind == "circle":
-            conj.append("dist (unit %snrm) %sk <= %s" % (p, p, R(1e-12)))
-        if kind in ("line", "circle", "helix"):
+            qs.append("qclose_list %s (map (qdc_point %spts) (seq 0 %d)) %s" % (tol, p, len(cc.pts), QVL([curve.get_point(i) for i in range(len(cc.pts))])))
+        if kind == "line":
+            qs.append("qclose_list %s (map %s %s) %s" % (tol, cc.FQ, QL([cc.lo, cc.hi]), QVL([curve.get_point(cc.lo), curve.get_point(cc.hi)])))
+        if trans:
+            conj = []
+            if kind == "circle":
+                conj.append("dist (unit %snrm) %sk <= %s" % (p, p, R(1e-12)))
             for t in (cc.lo, cc.hi):
-                e, c = cc.point(R(t), t)
-                conj.append("dist %s %s <= %s" % (e, V(curve.get_point(t)), tol))
-        return conj
+                conj.append("dist (%s %s) %s <= %s" % (cc.F, R(t), V(curve.get_point(t)), rtol))
+            rs.append(conj)
+        return qs, rs
     if op == "pointat":
         t = case["t"]
         py = curve.get_point(t)
         if kind == "discrete":
-            return ["dist (dc_point %spts %d) %s <= %s" % (p, t, V(py), tol)]
-        pe = cc.point(R(t), t)
-        if pe is None:
-            raise Boundary()
-        e, c = pe
-        return c + ["dist %s %s <= %s" % (e, V(py), tol)]
+            return ["qclose_v %s (qdc_point %spts %d) %s" % (tol, p, t, QV(py))], []
+        if kind == "spline":
+            raise Boundary()  # black box: nothing to compare
+        if trans:
+            return [], [["dist (%s %s) %s <= %s" % (cc.F, R(t), V(py), rtol)]]
+        return ["qclose_v %s (%s %s) %s" % (tol, cc.FQ, Q(t), QV(py))], []
     if op == "discretize":
         a, b, cnt = case["a"], case["b"], case["count"]
         if kind == "discrete":
             py = curve.discretize(a, b)
-            return ["close_list %s (dc_discretize %spts %d %d) %s" % (tol, p, a, b, VL(py))]
+            return ["qclose_list %s (dc_discretize %spts %d %d) %s" % (tol, p, a, b, QVL(py))], []
         py = curve.discretize(a, b, cnt)
         if len(py) != cnt:
-            return ["False"]
-        if kind in ("line", "circle", "helix"):
-            return ["close_list %s (fc_discretize %s %s %s %d) %s" % (tol, cc.F, R(a), R(b), cnt, VL(py))]
-        if kind == "linear":
-            conj = []
+            return ["false"], []
+        if trans:
+            return [], [["close_list %s (fc_discretize %s %s %s %d) %s" % (rtol, cc.F, R(a), R(b), cnt, VL(py))]]
+        if kind == "spline":
+            # the model says map f (linspace a b n) for the black box f: compare with the black box itself
             lin = np.linspace(a, b, cnt)
-            for k in range(cnt):
-                e, c = cc.point("(lin_at %s %s %d %d)" % (R(a), R(b), cnt, k), float(lin[k]), exact=False)
-                conj += c
-                conj.append("dist %s %s <= %s" % (e, V(py[k]), tol))
-            return conj
-        # spline: the model says map f (linspace a b n) for the black box f: compare with the black box itself
-        lin = np.linspace(a, b, cnt)
-        vals = [curve.function(float(t)) for t in lin]
-        return ["close_rlist %s (linspace %s %s %d) %s" % (R(1e-12 * max(1.0, abs(a), abs(b))), R(a), R(b), cnt, RL(lin)),
-                "close_list %s %s %s" % (tol, VL(vals), VL(py))]
+            vals = [curve.function(float(t)) for t in lin]
+            return ["qclose_rlist %s (qlinspace %s %s %d) %s" % (Q(ptol(a, b)), Q(a), Q(b), cnt, QL(lin)),
+                    "qclose_list %s %s %s" % (tol, QVL(vals), QVL(py))], []
+        return ["qclose_list %s (map %s (qlinspace %s %s %d)) %s" % (tol, cc.FQ, Q(a), Q(b), cnt, QVL(py))], []
     if op == "length":
         a, m, b = case["a"], case["m"], case["b"]
         conj = []
-        for (x, y) in ((a, b), (b, a), (a, m), (m, b)):
-            conj += length_conj(cc, x, y, float(curve.get_length(x, y)))
-        return conj
+        pairs = list(enumerate(((a, b), (b, a), (a, m), (m, b))))
+        if kind in ("line", "circle", "helix"):
+            # each call is one more sample of "get_length = polyline through discretize(., ., n_len)"; the lists are long
+            pairs = pairs[:2] if case.get("full") else pairs[2:]
+        for j, (x, y) in pairs:
+            q1, r1 = length_checks(cc, x, y, float(curve.get_length(x, y)), rng, with_tie=(j in (0, 2) or not trans))
+            qs += q1
+            conj += r1
+        if conj:
+            rs.append(conj)
+        return qs, rs
     if op == "closest":
         q = np.array(case["q"])
         r = curve.get_closest_param(q)
+        QQ, RQ = QV(q), V(q)
         if kind == "discrete":
             ds = sorted(float(np.linalg.norm(np.array(x) - q)) for x in cc.pts)
             if ds[1] - ds[0] < 1e-9 * cc.size:
                 raise Boundary()
-            k = int(r)
-            return ["argmin_at (map (fun x => dist x %s) %spts) (dist (dc_point %spts %d) %s) %d" % (V(q), p, p, k, V(q), k)]
+            return ["Nat.eqb (qclosest_idx %spts %s) %d" % (p, QQ, int(r))], []
         r = float(r)
         t0 = coarse_param(curve, q)
         cnt = cc.n_coarse
         lin = np.linspace(cc.lo, cc.hi, cnt)
         k = int(np.argmin(np.abs(lin - t0)))
         cs = curve.discretize()
+        if len(cs) != cnt:
+            return ["false"], []
         ds = sorted(float(np.linalg.norm(x - q)) for x in cs)
         if ds[1] - ds[0] < 1e-9 * cc.size:
             raise Boundary()
-        conj = ["Rabs (lin_at %s %s %d %d - %s) <= %s" % (R(cc.lo), R(cc.hi), cnt, k, R(t0), R(1e-12 * max(1.0, abs(cc.lo), abs(cc.hi))))]
-        Q = V(q)
-        if kind in ("line", "circle", "helix"):
-            conj.append("argmin_at (map (fun x => dist x %s) (fc_discretize %s %s %s %d)) (dist (%s (lin_at %s %s %d %d)) %s) %d"
-                        % (Q, cc.F, R(cc.lo), R(cc.hi), cnt, cc.F, R(cc.lo), R(cc.hi), cnt, k, Q, k))
+        # coarse stage: argmin over the samples of discretize(), parameter from linspace over the bounds
+        qs.append("Nat.eqb (qclosest_idx %s %s) %d" % (QVL(cs), QQ, k))
+        qs.append("qabs_le (qlin_at %s %s %d %d - %s) %s" % (Q(cc.lo), Q(cc.hi), cnt, k, Q(t0), Q(ptol(cc.lo, cc.hi))))
+        # the minimiser assumption, monitored: inside the bounds, not farther than its start point
+        qs.append("Qle_bool %s %s && Qle_bool %s %s" % (Q(cc.lo), Q(r), Q(r), Q(cc.hi)))
+        d9, d4 = 1e-9 * case["extent"], 1e-4 * case["extent"]
+        if trans:
+            conj = []
+            for j in sorted({k, rng.randint(0, cnt - 1)}):
+                conj.append("dist (%s (lin_at %s %s %d %d)) %s <= %s" % (cc.F, R(cc.lo), R(cc.hi), cnt, j, V(cs[j]), rtol))
+            conj.append("dist (%s %s) %s <= dist (%s %s) %s + %s" % (cc.F, R(r), RQ, cc.F, R(t0), RQ, R(d9)))
+            # certificate of global optimality (Proofs: circle_lb_le)
+            if kind == "circle" and case["near"] and cc.lo + 1e-3 < r < cc.hi - 1e-3:
+                conj.append("circle_defect %so %srim %sk %s %s <= %s" % (p, p, p, RQ, R(r), R(d4)))
+            rs.append(conj)
+        elif kind == "spline":
+            vals = [curve.function(float(t)) for t in lin]
+            qs.append("qclose_rlist %s (qlinspace %s %s %d) %s" % (Q(ptol(cc.lo, cc.hi)), Q(cc.lo), Q(cc.hi), cnt, QL(lin)))
+            qs.append("qclose_list %s %s %s" % (tol, QVL(vals), QVL(cs)))
+            qs.append("qnot_farther %s %s %s (qd2 %s %s)" % (Q(d9), QV(curve.function(r)), QQ, QV(curve.function(t0)), QQ))
         else:
-            # piecewise-linear / black-box curve: coarse points as returned by discretize() (compared with the model in
-            # the discretize cases), argmin over them
-            conj.append("argmin_at (map (fun x => dist x %s) %s) (dist %s %s) %d" % (Q, VL(cs), V(cs[k]), Q, k))
-        # the minimiser assumption, monitored: not farther than its start point, inside the bounds
-        pr, p0 = cc.point(R(r), r), cc.point(R(t0), t0)
-        if pr is not None:
-            conj += pr[1] + p0[1]
-            conj.append("dist %s %s <= dist %s %s + %s" % (pr[0], Q, p0[0], Q, R(1e-9 * case["extent"])))
-        conj.append("%s <= %s" % (R(cc.lo), R(r)))
-        conj.append("%s <= %s" % (R(r), R(cc.hi)))
-        # certificates of global optimality (Proofs: line_closest_cert, circle_closest_cert)
-        if kind == "line":
-            conj.append("line_defect %sp1 %sp2 %s %s %s %s <= %s" % (p, p, R(cc.lo), R(cc.hi), Q, R(r), R(1e-4 * case["extent"])))
-        if kind == "circle" and case["near"] and cc.lo + 1e-3 < r < cc.hi - 1e-3:
-            conj.append("circle_defect %so %srim (unit %snrm) %s %s <= %s" % (p, p, p, Q, R(r), R(1e-4 * case["extent"])))
-        return conj
+            qs.append("qclose_list %s (map %s (qlinspace %s %s %d)) %s" % (tol, cc.FQ, Q(cc.lo), Q(cc.hi), cnt, QVL(cs)))
+            qs.append("qnot_farther %s (%s %s) %s (qd2 (%s %s) %s)" % (Q(d9), cc.FQ, Q(r), QQ, cc.FQ, Q(t0), QQ))
+            # certificates of global optimality (Proofs: qline_topt / qpl_mind2 are the exact minimisers)
+            if kind == "line":
+                qs.append("qnot_farther %s (%s %s) %s (qd2 (%s (qline_topt %sp1 %sp2 %s %s %s)) %s)"
+                          % (Q(d4), cc.FQ, Q(r), QQ, cc.FQ, p, p, Q(cc.lo), Q(cc.hi), QQ, QQ))
+            if kind == "linear" and case["near"]:
+                qs.append("match qpl_mind2 %spts %s with Some m2 => qnot_farther %s (%s %s) %s m2 | None => false end"
+                          % (p, QQ, Q(d4), cc.FQ, Q(r), QQ))
+        return qs, rs
     if op == "edge":
         ob = make_edge(curve, case["v1"], case["v2"], case["n_points"], case["representation"])
         res.count("edge written as " + ob["keyword"])
@@ -710,28 +740,24 @@ def case_goal(cc, case, res):
         py = ob["points"]
         if kind == "discrete":
             a, b = int(ps), int(pe)
-            conj = ["close_list %s (dc_edge_points %spts %d %d) %s" % (tol, p, a, b, VL(py))]
+            qs.append("qclose_list %s (dc_edge_points %spts %d %d) %s" % (tol, p, a, b, QVL(py)))
             if a != b:
-                conj += length_conj(cc, a, b, ob["length"])
-            return conj
+                qs += length_checks(cc, a, b, ob["length"], rng)[0]
+            return qs, rs
         if len(py) != n:
-            return ["False"]
-        conj = []
-        if kind in ("line", "circle", "helix"):
-            conj.append("close_list %s (edge_points %s %s %s %d) %s" % (tol, cc.F, R(ps), R(pe), n, VL(py)))
-        else:
+            return ["false"], []
+        if trans:
+            rs.append(["close_list %s (edge_points %s %s %s %d) %s" % (rtol, cc.F, R(ps), R(pe), n, VL(py))])
+        elif kind == "spline":
             lin = np.linspace(ps, pe, n + 2)[1:-1]
-            if kind == "linear":
-                for k in range(n):
-                    e, c = cc.point("(nth %d (edge_params %s %s %d) 0)" % (k, R(ps), R(pe), n), float(lin[k]), exact=False)
-                    conj += c
-                    conj.append("dist %s %s <= %s" % (e, V(py[k]), tol))
-            else:
-                vals = [curve.function(float(t)) for t in lin]
-                conj.append("close_rlist %s (edge_params %s %s %d) %s" % (R(1e-12 * max(1.0, abs(ps), abs(pe))), R(ps), R(pe), n, RL(lin)))
-                conj.append("close_list %s %s %s" % (tol, VL(vals), VL(py)))
-        conj += length_conj(cc, ps, pe, ob["length"])
-        return conj
+            vals = [curve.function(float(t)) for t in lin]
+            qs.append("qclose_rlist %s (interior (qlinspace %s %s %d)) %s" % (Q(ptol(ps, pe)), Q(ps), Q(pe), n + 2, QL(lin)))
+            qs.append("qclose_list %s %s %s" % (tol, QVL(vals), QVL(py)))
+        else:
+            qs.append("qclose_list %s (map %s (interior (qlinspace %s %s %d))) %s" % (tol, cc.FQ, Q(ps), Q(pe), n + 2, QVL(py)))
+        q1, _r1 = length_checks(cc, ps, pe, ob["length"], rng, with_tie=False)
+        qs += q1
+        return qs, rs
     raise ValueError(op)
 
 
@@ -742,39 +768,57 @@ def strip(case):
     return {k: v for k, v in case.items()}
 
 
+def parse_id_list(so):
+    m = re.search(r"=\s*\[(.*?)\]\s*:\s*list Z", so, flags=re.S)
+    if not m:
+        raise RuntimeError("cannot parse Coq output: %r" % so[:400])
+    body = m.group(1).strip()
+    if not body:
+        return []
+    return [int(x.strip().strip("()")) for x in body.replace("\n", " ").split(";")]
+
+
+SUB = 64  # obligation id = case id * SUB + index of the obligation within the case
+
+
 class C16(Prop):
     pid = "C16"
     title = "Curve points, lengths and closest-parameter queries are mutually consistent"
-    prebuilt = ["Base/Vec3.v", "Model/C16_Curves.v", "Proofs/C16_Curves.v"]
+    prebuilt = ["Base/Vec3.v", "Model/C16_Curves.v", "Model/C16_CurvesQ.v", "Proofs/C16_Curves.v", "Proofs/C16_Length.v",
+                "Proofs/C16_QSound.v"]
     gen_dependent_files = []
     property_files = ["Properties/C16.v"]
     trusted = [
         "scipy.interpolate.make_interp_spline is a black box assumed to interpolate its knots (monitored on every spline curve)",
         "scipy.optimize.minimize inside get_closest_param is a black box assumed to return a parameter inside the bounds whose "
-        "point is not farther from the query than the start point (monitored on every query); for line and circle curves its "
-        "result is certified against the closed-form optimum, for other curves dense-sample optimality is validated only",
+        "point is not farther from the query than the start point (monitored on every query); for line, circle and "
+        "linear-interpolated curves its result is certified against the exact optimum, for other curves dense-sample "
+        "optimality is validated only",
         "scipy.interpolate.interp1d(kind=linear) and scipy.linalg.expm of a skew matrix are modelled (piecewise-linear "
         "interpolation, Rodrigues' formula) and compared on every case",
         "the correspondence is sampled (random curves, parameters and queries), not exhaustive; the numbers of samples of the "
         "coarse stage (15) and of AnalyticCurve.get_length (100) are parameters of the model read from the implementation",
+        "rational evaluators Model/C16_CurvesQ.v (vm_compute side of the correspondence): tied to the real-valued model by "
+        "the lemmas of Proofs/C16_QSound.v; the per-case results themselves are correspondence evidence, not theorems",
     ]
     partial = [
         "C16_closest_dense_partial: proved = the result is at least as close as every coarse sample given the minimiser "
-        "assumption, and globally optimal up to a computable defect for line and circle curves; missing = optimality against "
-        "every point of an arbitrary (interpolated/analytic) curve, which depends on scipy's minimiser",
-        "C16_spline_partial: spline statements rest on the interpolation assumption for make_interp_spline; additivity of the "
-        "spline length holds for splits at knots only (chords through the knots)",
-        "C16_analytic_additive_partial: for analytic curves the 100-chord length is additive exactly for lines; for circles the "
-        "closed form (n-1) 2 r |sin(step/2)| is proved and additivity holds up to the discretisation error",
+        "assumption (and the discrete curve's argmin is exact); missing = optimality against every point of an arbitrary "
+        "(spline/analytic) curve, which depends on scipy's minimiser (validated against a dense sample, certified per case "
+        "for line, circle and linear-interpolated curves)",
+        "C16_interpolates: the spline half rests on the interpolation assumption for make_interp_spline (monitored)",
+        "C16_length_additive: additivity of the spline length holds for splits at knots only (chords through the knots); "
+        "for analytic curves the 100-chord length is additive up to the discretisation error only (validated)",
     ]
 
     def correspond(self, ctx):
         res = CorrResult()
         res.rule = ("random curves (discrete, linear- and spline-interpolated with uneven spacing, line, circle, helix) x "
                     "{points at knots/bounds, get_point, discretize in either order, get_length over a split in both orders, "
-                    "get_closest_param near/far, OnCurve edge through Mesh.assemble}; model evaluated by `interval` on the same "
-                    "dyadic inputs; tolerance 1e-9 x size (1e-4 x extent downstream of the minimiser); non-trivial = every case "
-                    "except degenerate ones skipped as boundary; distinct by (curve, case) JSON")
+                    "get_closest_param near/far, OnCurve edge through Mesh.assemble}; piecewise-linear/rational parts of the "
+                    "model evaluated by vm_compute over Q on the exact binary64 inputs (square roots enclosed with Z.sqrt), "
+                    "circle/helix points by `interval`; tolerance 1e-9 x size (1e-4 x extent downstream of the minimiser); "
+                    "non-trivial = every case except degenerate ones skipped as boundary; distinct by (curve, case) JSON")
         ncurves = ctx.n(84, 700)
         all_cases = []  # (gid, cc, case)
         ccs = []
@@ -793,9 +837,10 @@ class C16(Prop):
             for case in gen_cases(ctx.rng, cc):
                 all_cases.append((gid, cc, case))
                 gid += 1
-        # implementation + oracle + goal text
-        goals = {}  # curve index -> list of goal texts
+        # implementation + oracle + obligations
+        qob, rob = {}, {}  # curve index -> list of texts
         info = {}
+        nq = nr = 0
         for (g, cc, case) in all_cases:
             res.evaluations += 1
             res.count("kind=" + cc.kind)
@@ -807,7 +852,7 @@ class C16(Prop):
                     rp["why"] = why
                     res.oracle_failures.append(rp)
             try:
-                conj = case_goal(cc, case, res)
+                qs, rs = case_checks(cc, case, res, ctx.rng)
             except Boundary:
                 res.boundary += 1
                 continue
@@ -816,41 +861,77 @@ class C16(Prop):
                 res.mismatches.append(dict(case=g, op=case["op"], spec=cc.spec, impl="raises %s: %s" % (type(e).__name__, str(e)[:200]),
                                            args={k: v for k, v in case.items() if k != "spec"}))
                 continue
-            if not conj:
-                continue
-            goals.setdefault(cc.k, []).append(goal(g, conj))
-            info[g] = (cc, case)
-            res.distinct.add(json.dumps(case, sort_keys=True, default=str))
+            if len(qs) + len(rs) >= SUB:
+                raise RuntimeError("too many obligations in one case")
+            j = 0
+            for c in qs:
+                qob.setdefault(cc.k, []).append("(%d%%Z, %s)" % (g * SUB + j, c))
+                info[g * SUB + j] = (cc, case, c)
+                j += 1
+                nq += 1
+            for conj in rs:
+                rob.setdefault(cc.k, []).append((len(conj), rgoal(g * SUB + j, conj)))
+                info[g * SUB + j] = (cc, case, " /\\ ".join(conj))
+                j += 1
+                nr += len(conj)
+            if j:
+                res.distinct.add(json.dumps(case, sort_keys=True, default=str))
+        res.count("rational obligations (vm_compute)", nq)
+        res.count("real-valued conjuncts (interval)", nr)
         res.samples = [dict(case={k: v for k, v in c.items()}) for (_g, _cc, c) in all_cases[:3]]
-        # shard: whole curves per file
+        # shards: whole curves per file; the rational ones by number of obligations, the real-valued ones by conjuncts
         shards = []
-        cur, cur_n, idx = [], 0, 0
-        per = ctx.n(45, 60)
-        for cc in ccs:
-            gl = goals.get(cc.k, [])
-            if not gl:
+        qcurves = [cc for cc in ccs if qob.get(cc.k)]
+        nqf = max(1, min(ctx.n(8, 16), len(qcurves)))
+        for f in range(nqf):
+            part = qcurves[f::nqf]
+            if not part:
                 continue
-            cur.append("\n".join(cc.defs) + "\n" + "\n".join(gl))
-            cur_n += len(gl)
-            if cur_n >= per:
-                shards.append(("cases_%d" % idx, PREAMBLE + "\n".join(cur)))
-                cur, cur_n, idx = [], 0, idx + 1
-        if cur:
-            shards.append(("cases_%d" % idx, PREAMBLE + "\n".join(cur)))
+            text = [QPREAMBLE]
+            for cc in part:
+                text.append("\n".join(cc.qdefs))
+            text.append("Definition cases : list (Z * bool) := [\n" + ";\n".join(c for cc in part for c in qob[cc.k]) + "\n].")
+            text.append("Eval vm_compute in (map fst (filter (fun c => negb (snd c)) cases)).")
+            shards.append(("qcases_%d" % f, "\n".join(text) + "\n", [int(c[1:c.index("%")]) for cc in part for c in qob[cc.k]]))
+        rcurves = [cc for cc in ccs if rob.get(cc.k)]
+        total_r = sum(n for cc in rcurves for (n, _t) in rob[cc.k])
+        nrf = max(1, min(ctx.n(8, 16), (total_r + 39) // 40))
+        bins = [[0, []] for _ in range(nrf)]
+        for cc in sorted(rcurves, key=lambda c: -sum(n for (n, _t) in rob[c.k])):
+            b = min(bins, key=lambda x: x[0])
+            b[0] += sum(n for (n, _t) in rob[cc.k])
+            b[1].append(cc)
+        for f, (_n, part) in enumerate(bins):
+            if not part:
+                continue
+            text = [RPREAMBLE]
+            for cc in part:
+                text.append("\n".join(cc.rdefs))
+                text.append("\n".join(t for (_n2, t) in rob[cc.k]))
+            shards.append(("rcases_%d" % f, "\n".join(text) + "\n", None))
         ok, bad = set(), set()
-        for (name, rc, so, se) in core.run_cases_parallel(ctx, shards, timeout=1500):
+        ids_of = {name: ids for (name, _t, ids) in shards}
+        for (name, rc, so, se) in core.run_cases_parallel(ctx, [(n, t) for (n, t, _i) in shards], timeout=ctx.n(600, 2400)):
             if rc != 0:
-                res.error = "case file %s failed to compile: %s" % (name, se[-800:])
+                res.error = "case file %s failed to compile (rc %d): %s" % (name, rc, se[-800:])
                 return res
-            ok.update(int(x) for x in re.findall(r"^OK (\d+)$", so, flags=re.M))
-            bad.update(int(x) for x in re.findall(r"^MISMATCH (\d+)$", so, flags=re.M))
-        for g in info:
-            if g in bad or g not in ok:
-                cc, case = info[g]
-                res.mismatches.append(dict(case=g, op=case["op"], spec=cc.spec, silent=(g not in bad),
+            if ids_of[name] is not None:
+                failing = set(parse_id_list(so))
+                bad.update(failing)
+                ok.update(i for i in ids_of[name] if i not in failing)
+            else:
+                ok.update(int(x) for x in re.findall(r"^OK (\d+)$", so, flags=re.M))
+                bad.update(int(x) for x in re.findall(r"^MISMATCH (\d+)$", so, flags=re.M))
+        seen_cases = set()
+        for i in sorted(info):
+            if i in bad or i not in ok:
+                cc, case, text = info[i]
+                if i // SUB in seen_cases:
+                    continue
+                seen_cases.add(i // SUB)
+                res.mismatches.append(dict(case=i // SUB, obligation=text[:300], op=case["op"], spec=cc.spec, silent=(i not in bad),
                                            args={k: v for k, v in case.items() if k != "spec"}))
-        res.traces = len(ok)
-        self._info = info
+        res.traces = len({i // SUB for i in ok})
         return res
 
     def search(self, ctx, broken, corr):
